@@ -7,6 +7,12 @@ props = [json.loads(l)["id"] for l in open(os.path.join(V, "properties.jsonl"))]
 TRUST = "TLC and the JVM; rustc; the Rust harness' recording code (events are what the real API returned); the pure-TLA+ number library spec/lib (unit-tested by TLC against Python integers)"
 
 CHECKS = {
+ "C13": dict(
+    technique="TLA+ guard stack machine over symbolic conversion terms (InPlace.tla); TLC enumerates all guard programs, replayed on real buffers; TLC trace validation (in-place arrays bit-identical to the term evaluated out of place)",
+    category="model_checking",
+    text="Every guard program up to depth 4 (thorough: 5) over 3-4 layout-compatible colour types - nested guards, then_into chains, clamped/unclamped flips, writes through the guard, restore, drop, forget, owned Vec/Box conversion - plus long simulated programs is executed on Vec, Box<[T]> and single values. After every operation TLC requires the raw arrays to be bit-identical to the specification's term evaluated with the ordinary conversion API, and address, length and capacity to be unchanged.",
+    ref="DESIGN.md section 4 C13",
+    note=TRUST + "; the out-of-place API is the meaning of a conversion step; absence of undefined behaviour inside the unsafe blocks as such is not decided (values, addresses, lengths only)"),
  "C18": dict(
     technique="TLA+ reference machine (Soa.tla); TLC enumerates all operation histories, replayed on the real collections; TLC trace validation of every recorded call",
     category="model_checking",
